@@ -38,6 +38,9 @@ def _key_gen(m):
         for f in ("ok", "flavor", "tags", "has", "data"):
             if a.get(f) != b.get(f):
                 return "%s|%s|%s|member.%s" % (pre, m["kind"], m["damage"], f)
+    if w.get("far") != g.get("far"):
+        # a member index far beyond the collection (MC_Sfnt!FarIdx) was answered differently
+        return "%s|%s|%s|far-member-index" % (pre, m["kind"], m["damage"])
     return "%s|%s|%s|members" % (pre, m["kind"], m["damage"])
 
 
